@@ -119,6 +119,40 @@ pub fn tamperings(r: &mut Rng, h: &Honest, other: Option<&Honest>, positions: us
                 out.push(mk("header-jwk-names-the-attackers-key-original-payload", h, with_jwt(h, t2), honest_resolver.clone(), kb));
             }
         }
+        // a resolver that picks the key by the header's kid: the kid that counts is the one in the SIGNED header. Tokens signed by
+        // hand with the issuer key (kid "k-issuer") and with another key the resolver also knows (kid "k-other"); in the JSON
+        // form further top-level members (header / unprotected / protected_header ...) name the other kid
+        if let Some(pl) = h.pres.payload() {
+            let issuer = f.issue.key;
+            let other_k = other_key_same_family(issuer);
+            let by_kid = Resolver { default: key_other_family(issuer), by_iss: vec![], by_kid: vec![("k-issuer".into(), issuer), ("k-other".into(), other_k)] };
+            let alg = issuer.alg();
+            let good = sign_token(&json!({"alg": alg, "kid": "k-issuer"}), &pl, issuer, alg);
+            let wrong = sign_token(&json!({"alg": alg, "kid": "k-issuer"}), &pl, other_k, alg);
+            let mut forged_pl = pl.clone();
+            if let Some(m) = forged_pl.as_object_mut() {
+                m.insert("role".into(), json!("admin"));
+            }
+            let forged = sign_token(&json!({"alg": alg, "kid": "k-issuer"}), &forged_pl, other_k, alg);
+            // key binding hashes the presentation, which changes with the JWT: these run without the KB-JWT
+            let bare = |jwt: &str| Parts { jwt: jwt.to_string(), disclosures: h.pres.disclosures.clone(), kb: None };
+            let mut c = mk("control-kid-resolver", h, bare(&good).render(f.issue.fmt), by_kid.clone(), false);
+            c.expect = Expect::Accept;
+            out.push(c);
+            out.push(mk("kid-resolver-signed-with-the-other-key", h, bare(&wrong).render(f.issue.fmt), by_kid.clone(), false));
+            for member in ["header", "unprotected", "protected_header", "headers", "jose"] {
+                for (tname, t) in [("same-payload", &wrong), ("forged-payload", &forged)] {
+                    let text = bare(t).json_form(false, Some((member, json!({"kid": "k-other", "alg": alg}))));
+                    let mut a = mk(&format!("kid-resolver-unsigned-{}-member-names-the-other-kid: {}", member, tname), h, text, by_kid.clone(), false);
+                    a.args.fmt = Fmt::Json;
+                    out.push(a);
+                }
+            }
+            let mut c2 = mk("control-kid-resolver-json-with-unsigned-header-member", h, bare(&good).json_form(true, Some(("header", json!({"kid": "k-other"})))), by_kid.clone(), false);
+            c2.args.fmt = Fmt::Json;
+            c2.expect = Expect::Accept;
+            out.push(c2);
+        }
         // characters outside the base64url alphabet (padding, standard-alphabet characters, blanks) at the ends of each part
         for (pi, pname) in ["header", "payload", "signature"].iter().enumerate() {
             for extra in ["=", "==", "+", "/", " ", "%3D", ".", "\u{feff}", "\u{200b}", "\u{a0}", "\n", "\t"] {
@@ -213,10 +247,10 @@ pub fn tamperings(r: &mut Rng, h: &Honest, other: Option<&Honest>, positions: us
         out.push(mk("resolver-other-family", h, h.pres_text.clone(), Resolver::always(key_other_family(f.issue.key)), kb));
         // resolver keyed by iss, the token claims another issuer
         if let Some(iss) = h.pres.payload().and_then(|p| p.get("iss").and_then(Value::as_str).map(String::from)) {
-            let res = Resolver { default: other_key_same_family(f.issue.key), by_iss: vec![(format!("{}-trusted", iss), f.issue.key)] };
+            let res = Resolver { default: other_key_same_family(f.issue.key), by_iss: vec![(format!("{}-trusted", iss), f.issue.key)], by_kid: vec![] };
             out.push(mk("resolver-keyed-by-iss-token-claims-other-issuer", h, h.pres_text.clone(), res, kb));
             // and the positive control: keyed by the right iss
-            let res2 = Resolver { default: other_key_same_family(f.issue.key), by_iss: vec![(iss, f.issue.key)] };
+            let res2 = Resolver { default: other_key_same_family(f.issue.key), by_iss: vec![(iss, f.issue.key)], by_kid: vec![] };
             let mut c = mk("control-resolver-keyed-by-iss", h, h.pres_text.clone(), res2, kb);
             c.expect = Expect::Accept;
             out.push(c);
@@ -231,7 +265,7 @@ pub fn tamperings(r: &mut Rng, h: &Honest, other: Option<&Honest>, positions: us
             near.dedup();
             let mut by: Vec<(String, KeyId)> = vec![(iss.clone(), other_key_same_family(f.issue.key))];
             by.extend(near.into_iter().map(|x| (x, f.issue.key)));
-            out.push(mk("resolver-exact-iss-maps-to-other-key-near-spellings-to-the-right-one", h, h.pres_text.clone(), Resolver { default: f.issue.key, by_iss: by }, kb));
+            out.push(mk("resolver-exact-iss-maps-to-other-key-near-spellings-to-the-right-one", h, h.pres_text.clone(), Resolver { default: f.issue.key, by_iss: by, by_kid: vec![] }, kb));
         }
         // parts of two tokens signed by the same key
         if let Some(o) = other {
@@ -291,7 +325,79 @@ pub fn run(ctx: &mut Ctx, _replay: Option<&str>) {
         attacks.extend(tamperings(&mut r, h, o.as_ref(), 40, all));
         ctx.count(&format!("base.fmt.{}.alg.{}.kb.{}", h.flow.issue.fmt.name(), h.flow.issue.key.alg(), h.flow.kb.is_some()));
     }
+    let mut long: Vec<Attack> = vec![];
+    // long tokens (a large visible claim; the extracted model is slow on them, so these are judged on the implementation alone): single-character edits at and around power-of-two offsets and at the very end of
+    // the payload part; whatever compares or hashes the signing input in blocks meets these
+    for (k, kib) in (if ctx.tier == Tier::Quick { vec![70usize, 300, 1100] } else { vec![5, 70, 300, 1100, 4200] }).into_iter().enumerate() {
+        let mut r = ctx.rng.fork(8000 + k as u64);
+        let cfg = FlowCfg { tree: TreeCfg { max_depth: 2, max_fanout: 3, path_safe_names: false, plain: true }, allow_custom: false, allow_kb: true, sel_density: 5 };
+        let mut f = gen_flow(&mut r, &cfg);
+        if let Some(m) = f.issue.claims.as_object_mut() {
+            m.insert("document".into(), json!("Zm9v".repeat(kib * 256)));
+        }
+        f.issue.strategy = Strategy::Top;
+        f.sel.remove("document");
+        // keep the large claim visible: it must sit in the signed payload
+        f.issue.strategy = Strategy::Custom(vec![]);
+        let h = match honest(ctx, &f) {
+            Some(h) => h,
+            None => {
+                ctx.count("honest_long_flow_failed(skipped)");
+                continue;
+            }
+        };
+        let jwt = h.pres.jwt.clone();
+        let kbq = f.kb.is_some();
+        let res = Resolver::always(f.issue.key);
+        let mut c = mk("control-long-token", &h, h.pres_text.clone(), res.clone(), kbq);
+        c.expect = Expect::Accept;
+        long.push(c);
+        let first_dot = jwt.find('.').unwrap_or(0);
+        let last_dot = jwt.rfind('.').unwrap_or(jwt.len() - 1);
+        let mut idx: Vec<usize> = vec![first_dot + 1, last_dot - 1, last_dot - 2, last_dot - 3, last_dot - 4, jwt.len() - 1];
+        let mut p2 = 64usize;
+        while p2 < last_dot {
+            for d in [-1i64, 0, 1] {
+                let i = (p2 as i64 + d) as usize;
+                if i > first_dot && i < last_dot {
+                    idx.push(i);
+                }
+                let j = first_dot as i64 + 1 + p2 as i64 + d;
+                if j > first_dot as i64 && (j as usize) < last_dot {
+                    idx.push(j as usize);
+                }
+            }
+            p2 *= 2;
+        }
+        for _ in 0..20 {
+            idx.push(first_dot + 1 + r.below(last_dot - first_dot - 1));
+        }
+        idx.sort();
+        idx.dedup();
+        for i in idx {
+            let kind = if i % 5 == 0 { 1 } else { 0 };
+            let t = edit_at(&mut r, &jwt, i, kind);
+            if t != jwt {
+                long.push(mk(&format!("edit-{}-long-token: position {} of {}", ["subst", "delete"][kind], i, jwt.len()), &h, with_jwt(&h, t), res.clone(), kbq && i % 2 == 0));
+            }
+        }
+        ctx.count(&format!("base.long_token.{}KiB", kib));
+    }
     run_attacks(ctx, &attacks);
+    for a in &long {
+        let r = verify(&a.args);
+        ctx.evaluations += 1;
+        ctx.impl_calls += 1;
+        ctx.oracle_checks += 1;
+        ctx.count(&format!("case.{}", a.name.split(':').next().unwrap_or("")));
+        let case = json!({"attack": a.name, "input_length": a.args.input.len(), "input_sha256": hash(&a.args.input), "fmt": a.args.fmt.name(), "origin": a.origin["flow"]});
+        match (&r.out, &a.expect) {
+            (Outcome::Ok(_), Expect::Accept) | (Outcome::Err(_), Expect::Reject) => ctx.nontrivial(&json!([a.name, a.args.input.len()])),
+            (Outcome::Ok(_), Expect::Reject) => ctx.violation("oracle", "verify", &format!("accepted although it must be rejected ({})", a.name), case, r.out.describe(), json!("Err")),
+            (Outcome::Err(_), _) => ctx.violation("oracle", "verify", &format!("rejected although it must be accepted ({})", a.name), case, r.out.describe(), json!("Ok")),
+            _ => ctx.violation("oracle", "verify", "the verifier panicked or did not return", case, r.out.describe(), json!("Ok or Err")),
+        }
+    }
     if let Some(a) = attacks.iter().find(|a| a.name.starts_with("edit-subst-payload")) {
         ctx.sample(json!({"attack": a.name, "input": a.args.input}));
     }
